@@ -35,6 +35,8 @@ type obsTerm struct {
 
 type Exec struct {
 	observe []obsTerm
+	inlinedKeys []string
+	curInlineKey string // key of the function whose body is being executed inline (event filters "in f")
 	w     *World
 	sp    *Specs
 	prog  *Program
@@ -307,6 +309,9 @@ func (x *Exec) mapComps(st *State, vs string) (dom, val Val) {
 }
 
 func mapValType(t types.Type) types.Type {
+	if t == nil {
+		return nil
+	}
 	if m, ok := types.Unalias(t).Underlying().(*types.Map); ok {
 		return m.Elem()
 	}
@@ -441,6 +446,26 @@ func (x *Exec) oblige(st *State, kind, name string, tags []string, goal string) 
 	}
 }
 
+// tryClause evaluates a contract clause; a clause that cannot be evaluated on this tree (it
+// names a parameter or local that is gone) yields no terms and the error message.
+func (x *Exec) tryClause(env *SEnv, c *Clause) ([]part, string) {
+	n0 := len(x.errs)
+	ps := env.evalClause(c)
+	if len(x.errs) > n0 {
+		msg := x.errs[n0]
+		x.errs = x.errs[:n0]
+		return nil, msg
+	}
+	return ps, ""
+}
+
+// broken records an obligation that can never be discharged: its clause cannot be evaluated.
+func (x *Exec) broken(st *State, kind, name string, tags []string, msg string) {
+	q := &Query{Ob: x.fn.name() + "#" + name, Kind: kind, Func: x.fn.name(), Tags: tags, Goal: "false", Expect: "unsat", Params: x.params, Broken: msg}
+	q.Trail = st.trail[:len(st.trail):len(st.trail)]
+	x.qs = append(x.qs, q)
+}
+
 func (x *Exec) safety(st *State, n ast.Node, what, goal string) {
 	name := fmt.Sprintf("safe[%d]:%s", x.ordinal(n), what)
 	if x.spec != nil && x.spec.Assumed[fmt.Sprintf("%s[%d]", what, x.ordinal(n))] {
@@ -523,9 +548,9 @@ func (x *Exec) evalMulti(st *State, e ast.Expr) []Val {
 	case *ast.Ident:
 		return []Val{x.evalIdent(st, e)}
 	case *ast.SelectorExpr:
-		return []Val{x.evalSelector(st, e)}
+		return []Val{x.withOrigin(st, e, x.evalSelector(st, e))}
 	case *ast.IndexExpr:
-		return []Val{x.evalIndex(st, e, false)[0]}
+		return []Val{x.withOrigin(st, e, x.evalIndex(st, e, false)[0])}
 	case *ast.SliceExpr:
 		return []Val{x.evalSliceExpr(st, e)}
 	case *ast.CallExpr:
@@ -582,6 +607,47 @@ func (x *Exec) evalIdent(st *State, id *ast.Ident) Val {
 
 func isErrorType(t types.Type) bool {
 	return types.Identical(t, types.Universe.Lookup("error").Type())
+}
+
+// withOrigin remembers that v was read from the field / map entry / element expression e: a
+// copy of it in a local or a parameter can then still be recognised by the event hooks
+// (dsc.inputs[p].Channel cached in a local is the input channel of p - provided it still is, which
+// is an obligation where the hook is applied). A field of a remembered struct value extends the
+// remembered expression.
+func (x *Exec) withOrigin(st *State, e ast.Expr, v Val) Val {
+	if sel, ok := e.(*ast.SelectorExpr); ok {
+		if _, isSel := x.info().Selections[sel]; isSel {
+			// base is itself a remembered value (a struct copied out of a map entry)?
+			if id, ok := ast.Unparen(sel.X).(*ast.Ident); ok {
+				if o, ok := x.info().Uses[id].(*types.Var); ok {
+					if bv, ok := st.vars[o]; ok && bv.Org != nil {
+						v.Org = &origin{expr: &ast.SelectorExpr{X: bv.Org.expr, Sel: sel.Sel}, env: bv.Org.env}
+						return v
+					}
+				}
+			}
+		}
+	}
+	env := map[types.Object]Val{}
+	pure := true
+	ast.Inspect(e, func(n ast.Node) bool {
+		switch t := n.(type) {
+		case *ast.Ident:
+			if o, ok := x.info().Uses[t].(*types.Var); ok {
+				if cur, ok := st.vars[o]; ok {
+					cur.Org = nil
+					env[o] = cur
+				}
+			}
+		case *ast.CallExpr, *ast.FuncLit:
+			pure = false
+		}
+		return true
+	})
+	if pure {
+		v.Org = &origin{expr: e, env: env}
+	}
+	return v
 }
 
 func (x *Exec) evalSelector(st *State, e *ast.SelectorExpr) Val {
